@@ -3,8 +3,11 @@
    A case is the event log one real connection produced (the c.vConn trace points in conn.go, recorded
    by verif_conn_on.go) plus the allocator's in-use count observed at quiescence.  [check] replays the
    log through Model.step: every recorded action must be enabled in the model state reached so far, and
-   at every trace point that holds c.mu the projected observables (number and sum of the keys of
-   c.calls, c.closed) must equal the model's.  The server side is not in the log: the response frame
+   at every trace point that holds c.mu the projected observables (the key set of c.calls, c.closed) must
+   equal the model's; after every event the allocator's in-use count bounds the model's held set from
+   above, and at quiescence equals it; finally every caller of the public API is found in the log by the
+   request number it carried in its context, the model must have seen its exec return, with an outcome of
+   the class the caller observed, and a response it was handed must carry its own request number.  The server side is not in the log: the response frame
    the receiver found is synthesised (SrvAnswer) just before RecvHeader; likewise the cancellation of the
    context the connection was dialled with (ParentCancel: the session's context) is synthesised when a
    select is seen to take its connection-context branch before closeWithError has cancelled it.
@@ -39,14 +42,37 @@ Module EvK.
   Definition vcFinishErr : Z := 19.
 End EvK.
 
-Inductive ev := E (k c a b n sm cl : Z).
+(* one recorded trace point: kind, call serial, two arguments, then the observations: [cl] = c.closed (1/0)
+   and [keys] = the sorted keys of c.calls, both only at trace points that hold c.mu (cl = -1 elsewhere), and
+   [iu] = the allocator's in-use count read at the trace point, under the recorder's lock *)
+Inductive ev :=
+| E (k c a b cl iu : Z) (add rem : list Z)  (* a trace point that holds c.mu; the key set of c.calls is given
+                                               as the difference to the previous such trace point of the log *)
+| V (k c a b iu : Z).                        (* any other trace point *)
+
+Definition ev_parts (e : ev) : Z * Z * Z * Z * Z * Z * list Z :=
+  match e with E k c a b cl iu _ _ => (k, c, a, b, cl, iu, []) | V k c a b iu => (k, c, a, b, -1, iu, []) end.
+
+(* the observed key set after e, given the one before *)
+Definition keys_after (ok : list Z) (e : ev) : list Z :=
+  match e with
+  | E _ _ _ _ _ _ add rem => filter (fun k => negb (existsb (Z.eqb k) rem)) (add ++ ok)
+  | V _ _ _ _ _ => ok
+  end.
 
 (* one connection: NumStreams, its events, and (if qpos >= 0) the allocator's in-use count [fin] observed
    when the connection was quiescent and the log had exactly qpos events *)
 Inductive log := L (nstr : Z) (evs : list ev) (qpos fin : Z).
 
 (* one history: the logs of all connections of one session *)
-Inductive case := CHist (logs : list log).
+(* what one caller of the public API observed: its request number (carried to exec in the context and
+   recorded with vcAlloc), its outcome class (0 ok, 1 error frame, 2 timeout, 3 context, 4 connection closed,
+   5 no streams, 6 no connection, 7 body read error, 8 write/connection error, 9 other, 10 rows without the
+   row), and the request number found inside the response it was handed (-1: none) *)
+Inductive result := R (tok cl seen : Z).
+
+(* one history: the logs of all connections of one session, and what every caller got *)
+Inductive case := CHist (logs : list log) (results : list result).
 
 Record rst := mkRst {
   st : state;
@@ -63,8 +89,11 @@ Fixpoint rem2 (k c : Z) (l : list (Z * Z)) : list (Z * Z) :=
 
 Definition sum_keys (l : list (Z * Z)) : Z := fold_right (fun p acc => fst p + acc) 0 l.
 
-Definition obs_ok (s : state) (n sm cl : Z) : bool :=
-  (Z.of_nat (length (calls s)) =? n) && (sum_keys (calls s) =? sm) && (Z.b2z (closed s) =? cl).
+(* the key set of c.calls and the closed flag, exactly *)
+Definition obs_ok (s : state) (keys : list Z) (cl : Z) : bool :=
+  let mk := map fst (calls s) in
+  (Nat.eqb (length mk) (length keys)) && forallb (fun k => existsb (Z.eqb k) mk) keys
+  && (Z.b2z (closed s) =? cl).
 
 Definition is_pwfail (s : state) (c : Z) : bool := match ph (callers s c) with PWFail => true | _ => false end.
 
@@ -81,21 +110,21 @@ Definition upd_st (r : rst) (s : state) : rst := mkRst s (conf r) (known r).
 Definition lift (r : rst) (o : option state) : option rst :=
   match o with Some s => Some (upd_st r s) | None => None end.
 
-Definition lift_obs (r : rst) (o : option state) (n sm cl : Z) : option rst :=
-  match o with Some s => if obs_ok s n sm cl then Some (upd_st r s) else None | None => None end.
+Definition lift_obs (r : rst) (o : option state) (keys : list Z) (cl : Z) : option rst :=
+  match o with Some s => if obs_ok s keys cl then Some (upd_st r s) else None | None => None end.
 
 Definition rcv_delivering (s : state) (c : Z) : bool :=
   match rcv s with RDeliver c' _ => c' =? c | _ => false end.
 
-Definition replay1 (r : rst) (e : ev) : option rst :=
-  let 'E k c a b n sm cl := e in
+Definition replay1 (r : rst) (e : ev) (keys : list Z) : option rst :=
+  let '(k, c, a, b, cl, iu, _) := ev_parts e in
   let s := st r in
   if k =? EvK.vcAlloc then
     match steps s [Start c; Alloc c a] with
     | Some s' => Some (mkRst s' (conf r) (c :: known r))
     | None => None
     end
-  else if k =? EvK.vcAddCall then lift_obs r (step s (AddCall c a)) n sm cl
+  else if k =? EvK.vcAddCall then lift_obs r (step s (AddCall c a)) keys cl
   else if k =? EvK.vcTmoClose then
     if a =? 1 then lift r (step s (BuildFail c))
     else if a =? 2 then lift r (step s (WriteErrClose c))
@@ -103,7 +132,7 @@ Definition replay1 (r : rst) (e : ev) : option rst :=
     else if a =? 5 then lift r (step s (CtxDone c))
     else if a =? 6 then lift r (steps s (if cctx s then [ConnDone c] else [ParentCancel; ConnDone c]))
     else None
-  else if k =? EvK.vcDelCall then lift_obs r (step s (DelCall c)) n sm cl
+  else if k =? EvK.vcDelCall then lift_obs r (step s (DelCall c)) keys cl
   else if k =? EvK.vcRelease then
     if negb (sid (callers s c) =? a) then None
     else match ph (callers s c) with
@@ -123,7 +152,7 @@ Definition replay1 (r : rst) (e : ev) : option rst :=
                      | RFail => b =? 2
                      | _ => false
                      end in
-        if shape && obs_ok s' n sm cl then Some (upd_st r s') else None
+        if shape && obs_ok s' keys cl then Some (upd_st r s') else None
     | None => None
     end
   else if k =? EvK.vcBody then
@@ -178,8 +207,8 @@ Definition replay1 (r : rst) (e : ev) : option rst :=
   else if k =? EvK.vcCloseBegin then
     let haserr := a =? 1 in
     if negb (Bool.eqb (closed s) (b =? 0)) then None
-    else if (b =? 1) && negb (obs_ok (with_close s true None [] (calls s)) n sm cl) then None
-    else if (b =? 0) && negb (obs_ok s n sm cl) then None
+    else if (b =? 1) && negb (obs_ok (with_close s true None [] (calls s)) keys cl) then None
+    else if (b =? 0) && negb (obs_ok s keys cl) then None
     else lift r (step s (CloseBegin (pick_who r haserr) haserr))
   else if k =? EvK.vcCloseSawTimeout then lift r (step s (CloseSawTimeout c))
   else if k =? EvK.vcCloseCancel then lift r (step s CloseCancel)
@@ -191,23 +220,82 @@ Definition quiescent_ok (r : rst) (fin : Z) : bool :=
   (Z.of_nat (length (held (st r))) =? fin) && forallb (fun p => negb (fst p =? 1)) (conf r).
 
 (* index of the first event that does not replay (or, as position qpos, of a failed quiescence
-   observation), or -1 *)
-Fixpoint replay (r : rst) (evs : list ev) (i qpos fin : Z) : Z * rst :=
+   observation), or -1.  After every event the allocator's count read at the trace point must be at least
+   the model's: every logged Alloc has happened, every Clear that has happened was logged (Release is
+   logged before it), and the count is read under the recorder's lock, so real >= logged allocs - logged
+   releases = length held.  (The other direction holds only at quiescence: [fin].) *)
+Fixpoint replay (r : rst) (ok : list Z) (evs : list ev) (i qpos fin : Z) : Z * rst :=
   if (i =? qpos) && negb (quiescent_ok r fin) then (i, r) else
   match evs with
   | [] => (-1, r)
   | e :: evs' =>
-      match replay1 r e with
-      | Some r' => replay r' evs' (i + 1) qpos fin
+      let keys := keys_after ok e in
+      match replay1 r e keys with
+      | Some r' =>
+          let '(_, _, _, _, _, iu, _) := ev_parts e in
+          if iu <? Z.of_nat (length (held (st r'))) then (i, r) else replay r' keys evs' (i + 1) qpos fin
       | None => (i, r)
       end
   end.
 
-Definition where_bad (l : log) : Z :=
-  match l with L nstr evs qpos fin => fst (replay (mkRst (init nstr) [] []) evs 0 qpos fin) end.
+Definition run_log (l : log) : Z * rst :=
+  match l with L nstr evs qpos fin => replay (mkRst (init nstr) [] []) [] evs 0 qpos fin end.
+
+Definition where_bad (l : log) : Z := fst (run_log l).
 
 Definition check_log (l : log) : bool := where_bad l =? -1.
 
-Definition check (c : case) : bool := match c with CHist logs => forallb check_log logs end.
+(* request number -> call serial, from the vcAlloc records *)
+Fixpoint toks_of (evs : list ev) : list (Z * Z) :=
+  match evs with
+  | [] => []
+  | e :: evs' =>
+      let '(k, c, _, b, _, _, _) := ev_parts e in
+      if (k =? EvK.vcAlloc) && negb (b =? 0) then (b, c) :: toks_of evs' else toks_of evs'
+  end.
+
+Definition memz (x : Z) (l : list Z) : bool := existsb (Z.eqb x) l.
+
+(* the outcome the model reached for a call, against the class the caller of the public API observed *)
+Definition class_ok (o : outcome) (cl : Z) : bool :=
+  match o with
+  | OResp (RTok _) => memz cl [0; 1; 10]
+  | OResp (RBodyErr _) => memz cl [7; 8; 9]
+  | OResp RCloseErr => memz cl [4; 7; 8; 9]
+  | OTimeout => cl =? 2
+  | OCtx | OWriteCtx => cl =? 3
+  | OConnClosed => cl =? 4
+  | OWriteErr => memz cl [4; 7; 8; 9]
+  | OAddFail => memz cl [4; 9]
+  | OBuildErr => negb (memz cl [0; 1; 10])
+  | ORefused | ONoStreams => false          (* such an exec has no call and no record *)
+  end.
+
+Fixpoint find_call (tok : Z) (fs : list (state * list (Z * Z))) : option (state * Z) :=
+  match fs with
+  | [] => None
+  | (s, tk) :: fs' => match lookup tok tk with Some c => Some (s, c) | None => find_call tok fs' end
+  end.
+
+Definition result_ok (fs : list (state * list (Z * Z))) (r : result) : bool :=
+  let 'R tok cl seen := r in
+  (* a response must carry the caller's own request number: the retained value is compared again here *)
+  (if memz cl [0; 1] then seen =? tok else true)
+  && match find_call tok fs with
+     | None => memz cl [3; 5; 6]            (* exec was never entered, or returned before a call existed *)
+     | Some (s, c) =>
+         match ph (callers s c) with
+         | PDone o => class_ok o cl
+         | _ => false                       (* the caller has returned; the model must have seen it return *)
+         end
+     end.
+
+Definition check (c : case) : bool :=
+  match c with
+  | CHist logs results =>
+      let rs := map (fun l => (run_log l, match l with L _ evs _ _ => toks_of evs end)) logs in
+      forallb (fun p => fst (fst p) =? -1) rs
+      && forallb (result_ok (map (fun p => (st (snd (fst p)), snd p)) rs)) results
+  end.
 
 Definition run (cs : list case) : list N := mismatches check cs.
